@@ -139,10 +139,13 @@ def harness_path(name):
     return os.path.join(build.BUILD, "harness", name)
 
 
-def replay_file(path, times=3, env=None, timeout_ms=None):
+def replay_file(path, times=3, env=None, timeout_ms=None, prop=None, sweep=1):
+    if env is None and prop:
+        env = dict(os.environ)
+        env["VERIF_PROP"] = prop
     d = json.load(open(path))
     h = d["harness"]
-    cmd = [harness_path(h), "--replay", path, "--times", str(times)]
+    cmd = [harness_path(h), "--replay", path, "--times", str(times), "--sweep", str(sweep)]
     if timeout_ms:
         cmd += ["--timeout-ms", str(timeout_ms)]
     p = subprocess.run(cmd, stdout=subprocess.PIPE, stderr=subprocess.DEVNULL, text=True, env=env)
@@ -167,6 +170,8 @@ def run_rc_unit(res, unit, findings, tier, seed, tmp):
         env["RC_PARAMS"] = "seed=%d max_success=%d max_size=%d" % (seed * 1000 + w + 1, per, unit.get("max_size", 100))
         env["VERIF_EXCLUDE"] = ",".join(excl)
         env["VERIF_TIER"] = tier
+        env["VERIF_PROP"] = res.prop
+        env.update(unit.get("env", {}))
         out = os.path.join(tmp, "%s-w%d.json" % (h, w))
         cmd = [harness_path(h), "--gen", "--out", out, "--replay-dir", tmp, "--tag", "w%d" % w,
                "--timeout-ms", str(unit.get("timeout_ms", 20000 if tier == "quick" else 120000))]
@@ -199,7 +204,7 @@ def run_rc_unit(res, unit, findings, tier, seed, tmp):
 
 
 def confirm_failure(res, findings, key, path, msg, unit=None):
-    r = replay_file(path, 3, timeout_ms=(unit or {}).get("timeout_ms"))
+    r = replay_file(path, 3, timeout_ms=(unit or {}).get("timeout_ms"), prop=res.prop)
     need = (unit or {}).get("confirm", 2)
     if r["fails"] < need:
         res.notes.append("FLAKY: %s failed in search but reproduced %d/3 (%s)" % (key, r["fails"], path))
@@ -227,8 +232,10 @@ def replay_tier(res, prop, findings, corpus_dir):
         if "harness" not in d or not os.path.exists(harness_path(d["harness"])):
             continue
         f = by_replay.get(os.path.abspath(p))
-        r = replay_file(p, 3)
-        res.replayed += 1
+        # saved schedule seeds reproduce only on an identical binary: sweep the
+        # following schedule seeds of the same case as well
+        r = replay_file(p, 1, prop=prop, sweep=int(d.get("sweep", 100)))
+        res.replayed += r["runs"]
         if r["fails"] >= 2:
             if f is not None and f.status == "known":
                 res.known(f)
